@@ -25,11 +25,21 @@ pub fn compile_rasn_cfg(sources: &[String], cfg: RasnConfig) -> Outcome {
     let r = catch_unwind(AssertUnwindSafe(move || {
         let mut it = srcs.into_iter();
         let first = it.next().unwrap_or_default();
-        let mut c = Compiler::<RasnBackend, _>::new_with_config(cfg).add_asn_literal(first);
-        for s in it {
-            c = c.add_asn_literal(s);
+        // the configuration has to survive every builder state: sources first for one half of the inputs, the output
+        // mode first (the other chain of builder states) for the other half
+        if first.len() % 2 == 0 {
+            let mut c = Compiler::<RasnBackend, _>::new_with_config(cfg).add_asn_literal(first);
+            for s in it {
+                c = c.add_asn_literal(s);
+            }
+            c.compile_to_string()
+        } else {
+            let mut c = Compiler::<RasnBackend, _>::new_with_config(cfg).set_output_mode(rasn_compiler::OutputMode::NoOutput).add_asn_literal(first);
+            for s in it {
+                c = c.add_asn_literal(s);
+            }
+            c.compile_to_string()
         }
-        c.compile_to_string()
     }));
     match r {
         Ok(Ok(res)) => Outcome::Ok {
